@@ -41,3 +41,153 @@ Proof.
   - exact SNP.number_reads_back_distinct.
   - intros name adm fields k Hin. unfold KT.tables_ok in Hts. rewrite forallb_forall in Hts. exact (Hts _ Hin).
 Qed.
+
+(** * Round 5: the same with ONE hypothesis, [premises g = true] for the record [g] of regenerated objects (Fmt/C20Property.v), and
+    with the layers that had their own statements in round 4: scenes.image with the pool it builds and independence of caller order,
+    soundscript export independent of earlier lazy reads, VMT files of parameter-only materials, every structured line of the
+    soundscript and choreo text writers, every SMD line. *)
+From SV Require Fmt.C20Property Fmt.VmtQuote Fmt.VmtQuoteProofs Fmt.TextLines Fmt.TextLinesProofs Fmt.SmdTpl Fmt.SmdWords
+  Fmt.VmtBlocks Fmt.VmtBlocksProofs KV.KvBase KV.KvLex KV.KvSym KV.KvLexProofs.
+Module VB := Fmt.VmtBlocks. Module VBP := Fmt.VmtBlocksProofs.
+Module P := Fmt.C20Property. Module VQ := Fmt.VmtQuote. Module VQP := Fmt.VmtQuoteProofs. Module TL := Fmt.TextLines.
+Module TLP := Fmt.TextLinesProofs. Module ST := Fmt.SmdTpl. Module SW := Fmt.SmdWords.
+
+Lemma premises_split : forall g, P.premises g = true ->
+  CS.cfg_okb (P.g_cmdseq g) = true /\ SC.icfg_okb (P.g_image g) = true /\ SK.guard_okb (P.g_snd_guard g) = true /\
+  SK.blocks_okb (P.g_snd_blocks g) = true /\ KT.tables_ok (P.g_tables g) = true /\ forallb CQ.all_stable (P.g_quant g) = true /\
+  VQ.nq_okb (P.g_vmt_nq g) = true /\ forallb TL.items_ok (P.g_snd_lines g) = true /\ forallb TL.items_ok (P.g_cho_lines g) = true /\
+  forallb P.smd_line_okb (P.g_smd_lines g) = true /\ VB.bcfg_okb (P.g_vmt_blocks g) = true /\ VB.bcfg_shape_okb (P.g_vmt_blocks g) = true.
+Proof.
+  intros g H. unfold P.premises in H. rewrite !andb_true_iff in H. tauto.
+Qed.
+
+Theorem property :
+  forall g : P.gen_objects, P.premises g = true ->
+  (* command sequences: written, read back equal, second generation identical *)
+  (forall v, CS.repr_okb (P.g_cmdseq g) v = true -> exists b, CS.write (P.g_cmdseq g) v = Some b /\ CS.parse (P.g_cmdseq g) b = Some v /\
+     forall v', CS.parse (P.g_cmdseq g) b = Some v' -> CS.write (P.g_cmdseq g) v' = Some b) /\
+  (* scenes.image: read back equal, table sorted by checksum, for both input forms and any dict keys *)
+  (forall is_dict version pool kes, SC.image_ok_w version pool (map snd kes) ->
+     exists b ps, SC.img_save_g (P.g_image g) is_dict version pool kes = Some b /\
+       SI.img_parse b = Some (version, pool, ps) /\ ps = map (SI.to_pentry version pool) (SI.sort_by_crc (map snd kes)) /\
+       StronglySorted N.le (map SI.p_crc ps)) /\
+  (* ... with the string pool the writer builds itself, every sound comes back as its string *)
+  (forall is_dict version pool0 kes, let pool := SC.pool_g (P.g_image g) is_dict pool0 kes in
+     SC.image_ok_w version pool (map (SC.resolve pool) (map snd kes)) ->
+     exists b, SC.img_save_s (P.g_image g) is_dict version pool0 kes = Some b /\
+       SI.img_parse b = Some (version, pool, map (SC.to_pentry_s version) (SC.sort_by SC.s_crc (map snd kes)))) /\
+  (* ... and equal images give identical files *)
+  (forall d1 d2 version pool0 kes1 kes2, Permutation (map snd kes1) (map snd kes2) -> NoDup (map SC.s_crc (map snd kes1)) ->
+     SC.img_save_s (P.g_image g) d1 version pool0 kes1 = SC.img_save_s (P.g_image g) d2 version pool0 kes2) /\
+  (* binary scenes: every layout decodes what it encoded, the second generation is identical, every stored quantised field is stable *)
+  (forall l env v b r, CB.enc l env v = Some b -> CB.dec l env (b ++ r) = Some (v, r)) /\
+  (forall l env v b v' r, CB.enc l env v = Some b -> CB.dec l env (b ++ r) = Some (v', r) -> CB.enc l env v' = Some b) /\
+  (forall s, In s (P.g_quant g) -> forall k, (0 <= k <= CQ.q_max s)%Z -> CQ.quant s (CQ.dequant s k) = Some k) /\
+  (* soundscript operator stacks: the value comes back, identically the second time, whatever lazy property was read before *)
+  (forall (A : Type) (x : SK.sound A), SK.same_value (SK.parse (fst (SK.export (P.g_snd_guard g) (P.g_snd_blocks g) x))) x /\
+     fst (SK.export (P.g_snd_guard g) (P.g_snd_blocks g) (SK.parse (fst (SK.export (P.g_snd_guard g) (P.g_snd_blocks g) x))))
+       = fst (SK.export (P.g_snd_guard g) (P.g_snd_blocks g) x) /\
+     forall ts, fst (SK.export (P.g_snd_guard g) (P.g_snd_blocks g) (SK.touches ts x)) = fst (SK.export (P.g_snd_guard g) (P.g_snd_blocks g) x)) /\
+  (* SMD: the nodes section reads back as the bones; every writer table has a key that determines what the reader identifies *)
+  (forall bs ls, NoDup (map SN.bkey bs) -> SN.number bs = Some ls ->
+     exists perm, Permutation perm bs /\ SN.read_nodes [] ls = Some (map SN.bone_rec perm)) /\
+  (forall name adm fields k, In (name, adm, fields, k) (P.g_tables g) -> DD.key_determines adm fields k = true) /\
+  (* SMD: every other written line splits at whitespace into exactly its fields; the bone line is read back by the reader's pattern *)
+  (forall l, In l (P.g_smd_lines g) ->
+     (SW.delim true l = true /\ forall ps, map fst ps = l -> SW.values_wordy ps = true -> SW.words (SW.render ps) = SW.fields ps) \/
+     (SW.nodes_line_shape l = true /\ forall a b idx nm par, l = [ST.ConvInt; ST.Lit a; ST.ConvStr; ST.Lit b; ST.ConvInt] ->
+        SW.all_digits idx = true -> forallb (fun c => negb (c =? 34)%N) nm = true -> SW.int_text par = true ->
+        SW.parse_nodes (SW.render [(ST.ConvInt, idx); (ST.Lit a, []); (ST.ConvStr, nm); (ST.Lit b, []); (ST.ConvInt, par)])
+        = Some (idx, nm, par))) /\
+  (* VMT (parameter-only materials): the file is read as shader, brace, the pairs in order, brace; the file determines the material *)
+  (forall E shader ps, VQP.shader_ok shader = true -> VQP.params_ok (P.g_vmt_nq g) ps = true ->
+     KvLex.lex_all E (VQ.vmt_file (P.g_vmt_nq g) shader ps) = (VQ.vmt_tokens shader ps, None)) /\
+  (forall s1 p1 s2 p2, VQP.shader_ok s1 = true -> VQP.params_ok (P.g_vmt_nq g) p1 = true -> VQP.shader_ok s2 = true ->
+     VQP.params_ok (P.g_vmt_nq g) p2 = true -> VQ.vmt_file (P.g_vmt_nq g) s1 p1 = VQ.vmt_file (P.g_vmt_nq g) s2 p2 -> s1 = s2 /\ p1 = p2) /\
+  (* VMT with sub-blocks and proxies: the file is read as shader, brace, the pairs, the canonical tokens of every block (name, brace,
+     children, brace / name, value), the Proxies frame with its blocks, brace; and a reader of such tokens gives the trees back *)
+  (forall E shader ps blocks proxies, KvSym.esc_ok E = true -> VQP.shader_ok shader = true -> VQP.params_ok (P.g_vmt_nq g) ps = true ->
+     forallb (VB.tree_ok (P.g_vmt_blocks g)) blocks = true -> forallb (VB.tree_ok (P.g_vmt_blocks g)) proxies = true ->
+     KvLex.lex_all E (VB.vmt_file_b E (P.g_vmt_blocks g) (P.g_vmt_nq g) shader ps blocks proxies)
+       = (VB.vmt_tokens_b (P.g_vmt_blocks g) shader ps blocks proxies, None) /\
+     (forall t, VB.block_toks (P.g_vmt_blocks g) t = VB.kv_toks t) /\
+     (forall st, VBP.reads (flat_map VB.kv_toks blocks ++ [KvBase.TBC; KvBase.TNL] ++ st) blocks st)) /\
+  (* soundscripts and text scenes: every structured line the writers can emit is lexed back as its keywords and field values *)
+  (forall E ind its vs l, KvSym.esc_ok E = true -> KvSym.ws_only ind = true -> In its (P.g_snd_lines g ++ P.g_cho_lines g) ->
+     TL.vals_ok its vs = true -> KvLexProofs.lexes E l (TL.render E ind its vs) (TL.toks its vs) (TL.lines its l)).
+Proof.
+  intros g H. destruct (premises_split g H) as (Hc & Hic & Hg & Hws & Hts & Hqs & Hnq & Hsl & Hcl & Hsmd & Hvb & Hvs).
+  refine (conj _ (conj _ (conj _ (conj _ (conj _ (conj _ (conj _ (conj _ (conj _ (conj _ (conj _ (conj _ (conj _ (conj _ _)))))))))))))).
+  - intros v Hv. destruct (CSP.file_roundtrip _ v Hc (CSP.repr_okb_ok _ v Hv)) as (b & Hw & Hp). exists b. repeat split; try assumption.
+    intros v' Hp'. exact (CSP.second_generation _ v b v' Hc (CSP.repr_okb_ok _ v Hv) Hw Hp').
+  - intros is_dict version pool kes Hok.
+    destruct (SCP.save_g_roundtrip _ is_dict version pool kes Hic Hok) as (b & Hs & Hp).
+    destruct (SCP.save_g_table_sorted _ is_dict version pool kes Hic Hok) as (b' & ps & Hs' & Hp' & Hsorted & _).
+    rewrite Hs in Hs'. injection Hs' as <-. rewrite Hp in Hp'. injection Hp' as <-.
+    exists b, (map (SI.to_pentry version pool) (SI.sort_by_crc (map snd kes))). repeat split; assumption.
+  - intros is_dict version pool0 kes pool Hok. exact (SCP.save_s_roundtrip _ is_dict version pool0 kes Hic Hok).
+  - intros d1 d2 version pool0 kes1 kes2 Hperm Hnd. exact (SCP.save_s_order_independent _ d1 d2 version pool0 kes1 kes2 Hic Hperm Hnd).
+  - exact CBP.dec_enc.
+  - exact CBP.enc_dec_enc.
+  - intros s Hs k Hk. rewrite forallb_forall in Hqs. exact (CQ.quant_dequant s (Hqs s Hs) k Hk).
+  - intros A x. split; [|split].
+    + exact (SKP.parse_export_same_value A _ _ x Hg Hws).
+    + exact (SKP.second_generation_identical A _ _ x Hg Hws).
+    + intro ts. exact (SKP.export_observer_independent A _ _ ts x Hg Hws).
+  - exact SNP.number_reads_back_distinct.
+  - intros name adm fields k Hin. unfold KT.tables_ok in Hts. rewrite forallb_forall in Hts. exact (Hts _ Hin).
+  - intros l Hin. rewrite forallb_forall in Hsmd. specialize (Hsmd l Hin). unfold P.smd_line_okb in Hsmd.
+    apply orb_true_iff in Hsmd. destruct Hsmd as [Hd | Hn].
+    + left. split; [assumption|]. intros ps Hps Hw. apply (SW.delimited_line_splits ps true); [rewrite Hps; assumption | assumption].
+    + right. split; [assumption|]. intros a b idx nm par -> Hi Hnm Hpar. exact (SW.nodes_line_reads_back a b idx nm par Hn Hi Hnm Hpar).
+  - intros E shader ps Hsh Hps. exact (VQP.vmt_file_reads_back E _ shader ps Hnq Hsh Hps).
+  - intros s1 p1 s2 p2 H1 H2 H3 H4 Heq. exact (VQP.vmt_file_determines_material _ s1 p1 s2 p2 Hnq H1 H2 H3 H4 Heq).
+  - intros E shader ps blocks proxies HE Hsh Hps Hb Hp. split; [|split].
+    + exact (VBP.vmt_file_b_reads_back E _ HE Hvb _ shader ps blocks proxies Hnq Hsh Hps Hb Hp).
+    + exact (VBP.block_toks_canonical _ Hvs).
+    + intro st. exact (VBP.read_blocks_kv blocks st).
+  - intros E ind its vs l HE Hind Hin Hv. apply in_app_or in Hin. destruct Hin as [Hin | Hin].
+    + exact (TLP.lines_lex E ind _ HE Hind Hsl its vs l Hin Hv).
+    + exact (TLP.lines_lex E ind _ HE Hind Hcl its vs l Hin Hv).
+Qed.
+
+(** Non-vacuity: a record of the shape the translators produce for the pinned tree (cmdseq configuration as generated on 2026-09-29,
+    the reference configurations of the other models, a few of the generated lines) satisfies [premises].  On every run the check
+    discharges [premises] for the record built from the Gen files themselves. *)
+From Coq Require Import String.
+Definition pinned_cmdseq : CS.cfg := {|
+  CS.c_header := [87;111;114;108;100;99;114;97;102;116;32;67;111;109;109;97;110;100;32;83;101;113;117;101;110;99;101;115;13;10;26]%N;
+  CS.c_version_bits := 1045220557%N;
+  CS.c_thr_num := 3602879701896397%Z; CS.c_thr_log2den := 54%Z; CS.c_thr_strict := true;
+  CS.c_name_w := 128;
+  CS.c_fmt_v2 := [CS.FB; CS.FI; CS.FS 260; CS.FS 260; CS.FI; CS.FI; CS.FS 260; CS.FI; CS.FI];
+  CS.c_fmt_v1 := [CS.FB; CS.FI; CS.FS 260; CS.FS 260; CS.FI; CS.FI; CS.FS 260; CS.FI];
+  CS.c_exe_w := 260; CS.c_args_w := 260; CS.c_ens_w := 260;
+  CS.c_specials := [(256%N, [67;104;97;110;103;101;32;68;105;114;101;99;116;111;114;121]%N); (257%N, [67;111;112;121;32;70;105;108;101]%N);
+                    (258%N, [68;101;108;101;116;101;32;70;105;108;101]%N); (259%N, [82;101;110;97;109;101;32;70;105;108;101]%N)]
+|}.
+Definition pinned_objects : P.gen_objects := P.mkGen pinned_cmdseq SC.ref_cfg SKP.ref_guard SKP.ref_blocks
+  [("choreo.save_scenes_image_sync:add_to_pool", [], ["<value>"], DD.KValue);
+   ("particles.Particle.export:name_to_elem", ["casefold"], ["name"], DD.KFields [("name", "casefold")]);
+   ("smd.Mesh.export:bone_indexes", [], ["name"], DD.KFields [("name", "")])]%string
+  [CQ.site_byte; CQ.site_abs] VQP.ref_nq
+  [[TL.IWs [9]; TL.IWord [112; 105; 116; 99; 104] 32; TL.IQRaw; TL.INl]; [TL.IWs [9]; TL.IBC; TL.INl]]%N
+  [[TL.IInd; TL.IWord [101; 118; 101; 110; 116] 32; TL.IWord [115; 112; 101; 97; 107] 32; TL.IQEsc; TL.INl]]%N
+  [[ST.ConvInt; ST.Lit [32;34]%N; ST.ConvStr; ST.Lit [34;32]%N; ST.ConvInt];
+   [ST.ConvInt; ST.Lit [32]%N; ST.ConvFloat 6; ST.Lit [32]%N; ST.ConvFloat 6; ST.Lit [32]%N; ST.ConvFloat 6; ST.Lit [32;32]%N; ST.ConvFloat 6;
+    ST.Lit [32]%N; ST.ConvFloat 6; ST.Lit [32]%N; ST.ConvFloat 6];
+   [ST.Lit [116;105;109;101;32]%N; ST.ConvInt]; [ST.ConvStr]; [ST.Lit [101;110;100]%N]]
+  VB.ref_bcfg.
+Example premises_satisfiable : P.premises pinned_objects = true.
+Proof. vm_compute. reflexivity. Qed.
+(** ... and the premise is not trivially true: the record with the table sorted by the dict key (seeded faults c20_1/3/5/7), with the
+    version-2 test by presence (c20_4/8) or with Bone compared through casefold (c20_6) is rejected *)
+Example premises_reject_the_seeded_fault_classes :
+  P.premises (P.mkGen pinned_cmdseq SC.cfg_dict_key SKP.ref_guard SKP.ref_blocks (P.g_tables pinned_objects) (P.g_quant pinned_objects)
+                VQP.ref_nq [] [] [] VB.ref_bcfg) = false /\
+  P.premises (P.mkGen pinned_cmdseq SC.ref_cfg SKP.presence_guard SKP.ref_blocks (P.g_tables pinned_objects) (P.g_quant pinned_objects)
+                VQP.ref_nq [] [] [] VB.ref_bcfg) = false /\
+  P.premises (P.mkGen pinned_cmdseq SC.ref_cfg SKP.ref_guard SKP.ref_blocks
+                [("smd.Mesh.export:bone_indexes", [], ["name"], DD.KFields [("name", "casefold")])]%string (P.g_quant pinned_objects)
+                VQP.ref_nq [] [] [] VB.ref_bcfg) = false.
+Proof. vm_compute. repeat split; reflexivity. Qed.
